@@ -8,7 +8,7 @@ export GOFLAGS=-mod=mod GOPROXY=off GOSUMDB=off GOTOOLCHAIN=local
 PATCH="$DIR/patch.diff"; DEMO=$(ls "$DIR"/*_test.go | head -1)
 if [ ! -d "$SCR" ]; then git -C /repo worktree add -q --detach "$SCR" HEAD || exit 2; fi
 git -C "$SCR" checkout -q --detach "$(git -C /repo rev-parse HEAD)" 2>/dev/null
-git -C "$SCR" checkout -q -- . && git -C "$SCR" clean -qfd
+git -C "$SCR" reset -q --hard HEAD && git -C "$SCR" clean -qfd
 pkgname=$(grep -m1 '^package ' "$DEMO" | awk '{print $2}')
 case "$pkgname" in
   fiber|fiber_test) D=. ;;
@@ -17,7 +17,7 @@ case "$pkgname" in
   *) D=middleware/${pkgname%_test} ;;
 esac
 echo "== $PROP $(basename "$DIR"): demo package $pkgname -> $D"
-if ! git -C "$SCR" apply "$PATCH" 2>/dev/null && ! git -C "$SCR" apply --3way "$PATCH"; then echo "RESULT patch-does-not-apply"; exit 3; fi
+if ! git -C "$SCR" apply "$PATCH"; then echo "RESULT patch-does-not-apply"; exit 3; fi
 TOUCHED=$(git -C "$SCR" diff --name-only | xargs -n1 dirname | sort -u | sed 's|^|./|' | tr '\n' ' ')
 (cd "$SCR" && go build ./... ) || { echo "RESULT build-fails"; exit 3; }
 echo "-- existing tests of touched packages ($TOUCHED) with the change"
@@ -34,4 +34,4 @@ cp "$DEMO" "$SCR/$D/zz_seed_demo_test.go"
 echo "-- demo WITHOUT the change (must pass)"
 (cd "$SCR" && go test -count=1 -vet=off -run 'Seed|C[0-9][0-9]|Mut|MutA|MutB' ./$D 2>&1 | grep -E "^(--- FAIL|FAIL|ok|panic)" | head -5)
 rm -f "$SCR/$D/zz_seed_demo_test.go"
-git -C "$SCR" checkout -q -- . && git -C "$SCR" clean -qfd
+git -C "$SCR" reset -q --hard HEAD && git -C "$SCR" clean -qfd
